@@ -40,8 +40,9 @@ theorem kidsOk_append {L : Char → Bool} {k : Nat} {a b : List Node} :
   | nil => simp [kidsOk]
   | cons c r ih => simp only [List.cons_append, kidsOk_cons, ih, and_assoc]
 
-theorem nonAtomic_iff {n : Node} : nonAtomic n = true ↔ n.textAtomic = false ∧ kidsNonAtomic n.children = true := by
-  cases n; simp only [nonAtomic, Bool.and_eq_true, Bool.not_eq_true']
+theorem nonAtomic_iff {n : Node} :
+    nonAtomic n = true ↔ n.textAtomic = false ∧ n.attrs = [] ∧ kidsNonAtomic n.children = true := by
+  cases n; simp only [nonAtomic, Bool.and_eq_true, Bool.not_eq_true', List.isEmpty_iff, and_assoc]
 
 theorem kidsNonAtomic_cons {c : Node} {r : List Node} :
     kidsNonAtomic (c :: r) = true ↔ nonAtomic c = true ∧ kidsNonAtomic r = true := by
@@ -110,12 +111,12 @@ theorem setTextOrTail_spec {L : Char → Bool} {k : Nat} (tbl : List Str) {p : N
       rotate_left 2
       · intro hna
         rw [nonAtomic_iff] at hna ⊢
-        have hkk := hna.2
+        have hkk := hna.2.2
         rw [hc, kidsNonAtomic_append, kidsNonAtomic_cons] at hkk
         simp only [Node.setLast, hc, List.dropLast_concat]
-        refine ⟨hna.1, kidsNonAtomic_append.2 ⟨hkk.1, kidsNonAtomic_cons.2 ⟨?_, rfl⟩⟩⟩
+        refine ⟨hna.1, hna.2.1, kidsNonAtomic_append.2 ⟨hkk.1, kidsNonAtomic_cons.2 ⟨?_, rfl⟩⟩⟩
         have hl' := nonAtomic_iff.1 hkk.2.1
-        rw [nonAtomic_iff]; exact ⟨hl'.1, hl'.2⟩
+        rw [nonAtomic_iff]; exact ⟨hl'.1, hl'.2.1, hl'.2.2⟩
       · rw [nodeOk_iff]
         simp only [Node.setLast, hc, List.dropLast_concat]
         refine ⟨hp.1, hp.2.1, kidsOk_append.2 ⟨hk.1, kidsOk_cons.2 ⟨?_, rfl⟩⟩⟩
@@ -130,7 +131,7 @@ theorem setTextOrTail_spec {L : Char → Bool} {k : Nat} (tbl : List Str) {p : N
       rotate_left 2
       · intro hna
         rw [nonAtomic_iff] at hna ⊢
-        exact ⟨rfl, hna.2⟩
+        exact ⟨rfl, hna.2.1, hna.2.2⟩
       · rw [nodeOk_iff]; exact ⟨ht, hp.2.1, hp.2.2⟩
       · simp only [nodeFlat_eq, htx, hch, kidsFlat_nil, Option.getD_none, Option.getD_some, flatT_nil, List.nil_append,
           List.append_nil]
@@ -144,7 +145,7 @@ theorem nonAtomic_append_child {p el : Node} (hp : nonAtomic p = true) (he : non
     nonAtomic (p.append el) = true := by
   rw [nonAtomic_iff] at hp ⊢
   simp only [Node.append]
-  exact ⟨hp.1, kidsNonAtomic_append.2 ⟨hp.2, kidsNonAtomic_cons.2 ⟨he, rfl⟩⟩⟩
+  exact ⟨hp.1, hp.2.1, kidsNonAtomic_append.2 ⟨hp.2.2, kidsNonAtomic_cons.2 ⟨he, rfl⟩⟩⟩
 
 theorem subOk_mkEl (t : String) : SubOk (mkEl t) false := ⟨rfl, fun h => (by cases h), fun _ => ⟨rfl, rfl⟩⟩
 
